@@ -185,6 +185,7 @@ def main():
                 for tag, src in setsources(x):
                     entries.append(('update_from_' + tag, (lambda s_: (lambda t: t.update(s_)))(src)))
                     entries.append(('ior_from_' + tag, (lambda s_: (lambda t: operator.ior(t, s_)))(src)))
+                    entries.append(('ixor_from_' + tag, (lambda s_: (lambda t: operator.ixor(t, s_)))(src)))
             else:
                 entries = [('setitem', lambda t: t.__setitem__(x, goodv)), ('setdefault', lambda t: t.setdefault(x, goodv)),
                            ('update', lambda t: t.update([(x, goodv)])), ('ctor', None), ('setstate', None)]
